@@ -197,6 +197,30 @@ class Evaluator:
             if module is not None:
                 self.mod_stack.pop()
 
+    def call_value(self, fv, args: List[Any]):
+        """Calls a function value of the evaluated program: a nested def or a lambda, with the variables of its defining frame."""
+        if isinstance(fv, tuple) and fv and fv[0] == "<func>":
+            fn = fv[1]
+            names = [x.arg for x in fn.args.args]
+            saved = self.env
+            if len(fv) > 2 and isinstance(fv[2], dict):
+                self.env = fv[2]
+            try:
+                return self.run_function(fn, dict(zip(names, args)))
+            finally:
+                self.env = saved
+        if isinstance(fv, tuple) and fv and fv[0] == "<lambda>":
+            lam, env = fv[1], fv[2]
+            saved = self.env
+            self.env = dict(env)
+            for a, v in zip(lam.args.args, args):
+                self.env[a.arg] = v
+            try:
+                return self.eval(lam.body)
+            finally:
+                self.env = saved
+        raise NotEvaluable("call of a value that is not a function of the evaluated program")
+
     def _super_method(self, sref: "SuperRef", name: str):
         if sref.obj._cls is None or self.repo is None:
             raise NotEvaluable("super() on an object without class")
@@ -474,7 +498,7 @@ class Evaluator:
                 name = ast.unparse(e)
             raise Raised(name)
         elif isinstance(st, ast.FunctionDef):
-            self.env[st.name] = ("<func>", st)
+            self.env[st.name] = ("<func>", st, self.env)  # the defining frame's variables, by reference (closure)
         elif isinstance(st, ast.Try):
             self._run_try(st)
         elif isinstance(st, ast.With):
@@ -1020,10 +1044,7 @@ class Evaluator:
                 raise NotEvaluable(f"keyword arguments in call {ast.unparse(n)[:60]}")
         # local nested function
         if isinstance(n.func, ast.Name) and isinstance(self.env.get(n.func.id), tuple) and self.env[n.func.id][0] == "<func>":
-            fn = self.env[n.func.id][1]
-            args = [self.eval(a) for a in n.args]
-            names = [x.arg for x in fn.args.args]
-            return self.run_function(fn, dict(zip(names, args)))
+            return self.call_value(self.env[n.func.id], [self.eval(a) for a in n.args])
         if isinstance(n.func, ast.Name) and n.func.id not in self.env and self.repo is not None and self.mod_stack and self.mod_stack[-1] is not None:
             from .model import FuncInfo
 
@@ -1147,6 +1168,8 @@ class Evaluator:
             recv = self.eval(n.func.value)
             args = self._elts(n.args)
             meth = n.func.attr
+            if isinstance(recv, Obj) and recv.has(meth) and isinstance(recv.get(meth), tuple) and recv.get(meth) and recv.get(meth)[0] in ("<func>", "<lambda>"):
+                return self.call_value(recv.get(meth), args)
             if isinstance(recv, Obj) and recv._cls is not None and self.repo is not None and not recv.has(meth):
                 kwargs = self._kwargs(n)
                 return self.call_method(recv, meth, args, kwargs)
